@@ -57,18 +57,23 @@ VARIABLES
   err,      \* result of the last call: 0 = ok, 101/102/103 = engine error codes
   ncalls,   \* engine calls so far
   nfaults,
+  nodereg,  \* the loop's `node` register [flow, node] (0,0 = nil): set when a node is visited and when a wait is resumed - NOT when
+            \* a parent run is resumed after its child, so the parent's exit is logged with the child's last node (pinned by
+            \* the repository's subflow fixture)
+  segs,     \* history of the current sprint: the segments logged so far, seq of [flow, nflow, node, exit, dest]
   plan,     \* history: routing choices of wait-less switch routers in the order they were made
   hist,     \* history: one record per engine call [op, kind, choice]
   exps      \* history: projection of the state after each call
 
-core  == <<def, gone, trig, trigch, status, runs, pc, cur, exit, pushed, nsteps, stepreg, nwaits, events, err, ncalls, nfaults>>
-hvars == <<plan, hist, exps>>
+core  == <<def, gone, trig, trigch, status, runs, pc, cur, exit, pushed, nsteps, stepreg, nwaits, events, err, ncalls, nfaults, nodereg>>
+hvars == <<plan, hist, exps, segs>>
 vars  == <<core, hvars>>
 
 -----------------------------------------------------------------------------
 NoExit == [set |-> FALSE, dest |-> 0]
 NoPush == [set |-> FALSE, flow |-> 0, terminal |-> FALSE]
 NoStep == [run |-> 0, idx |-> 0]
+NoNode == [flow |-> 0, node |-> 0]
 
 NodeRec(k, a, b, df, to, f, t) ==
   [kind |-> k, d1 |-> a, d2 |-> b, dflt |-> df, timeout |-> to, flow |-> f, terminal |-> t]
@@ -158,11 +163,27 @@ LastActOf(r) ==
 Proj == [status |-> status, err |-> err,
          runs   |-> [i \in DOMAIN runs |-> [flow |-> runs[i].flow, parent |-> runs[i].parent, status |-> runs[i].status, exited |-> runs[i].exited,
                                             path |-> runs[i].path, res |-> ResOf(runs[i]), lastact |-> LastActOf(runs[i])]],
-         events |-> events]
+         events |-> events, segs |-> segs]
 
 \* history bookkeeping shared by all actions: when a call returns, remember what it left behind
 Returned == pc' = "idle"
+(* Segments (session.go: "if we have a destination, record as segment"): whenever the loop moves on through an exit  *)
+(* that has a destination - before the step limit is looked at - it logs (flow of the current run, the `node`         *)
+(* register, the exit, the destination).  The exit is the one the current run's last step was left by.  A freshly      *)
+(* pushed run goes to its first node without a segment.  Both registers are derived here from the step being taken,    *)
+(* so every action gets them through Book.                                                                             *)
+SegStep == pc = "loop" /\ ~pushed.set /\ exit.set /\ exit.dest # 0        \* = the guard of LoopVisit
 Book(callrec, planadd) ==
+  /\ segs' = IF ncalls' # ncalls THEN <<>>
+             ELSE IF SegStep /\ Len(runs[cur].path) > 0
+                  THEN Append(segs, [flow |-> runs[cur].flow, nflow |-> nodereg.flow, node |-> nodereg.node,
+                                     exit |-> runs[cur].path[Len(runs[cur].path)].exit, dest |-> exit.dest])
+                  ELSE segs
+  /\ nodereg' = IF pc' = "idle" THEN NoNode
+                ELSE IF ncalls' # ncalls
+                     THEN (IF status = "waiting" THEN [flow |-> runs[WaitingRun].flow, node |-> NodeOfLast(runs, WaitingRun)] ELSE NoNode)
+                     ELSE IF SegStep /\ nsteps + 1 <= MaxSteps THEN [flow |-> runs[cur].flow, node |-> exit.dest]
+                     ELSE nodereg
   /\ hist' = IF callrec = <<>> THEN hist ELSE Append(hist, callrec[1])
   /\ plan' = plan \o planadd
   /\ exps' = IF Returned THEN Append(exps, Proj') ELSE exps
@@ -175,6 +196,7 @@ Init ==
   /\ status = "none" /\ runs = <<>>
   /\ pc = "idle" /\ cur = 0 /\ exit = NoExit /\ pushed = NoPush /\ nsteps = 0 /\ stepreg = NoStep
   /\ nwaits = 0 /\ events = <<>> /\ err = 0 /\ ncalls = 0 /\ nfaults = 0
+  /\ nodereg = NoNode /\ segs = <<>>
   /\ plan = <<>> /\ hist = <<>> /\ exps = <<>>
 
 (* Engine.NewSession: trigger.Initialize pushes the flow, then the loop.   *)
@@ -381,7 +403,7 @@ AssetFault(fk) ==
                              f |-> IF fk \in {"parent_gone", "pnode_gone"} THEN runs[runs[w].parent].flow ELSE runs[w].flow,
                              n |-> IF fk = "pnode_gone" THEN NodeOfLast(runs, runs[w].parent) ELSE NodeOfLast(runs, w),
                              was |-> IF fk = "pnode_gone" THEN DefOfLast(runs, runs[w].parent) ELSE def[runs[w].flow][NodeOfLast(runs, w)]])
-  /\ UNCHANGED <<plan, exps>>
+  /\ UNCHANGED <<plan, exps, nodereg, segs>>
 
 Loop == LoopPush \/ LoopDone \/ LoopVisit
 
@@ -443,6 +465,11 @@ ResultsOK == \A i \in DOMAIN runs : \A n \in Nodes :
                LET e == ResOf(runs[i])[n] IN
                  /\ e \in {0, 1, 2}
                  /\ (e # 0 => \E k \in DOMAIN runs[i].path : runs[i].path[k].node = n /\ runs[i].path[k].exit = e)
+
+\* every logged segment leaves by an exit of a node of its flow towards that exit's destination ...
+SegmentsOK == \A k \in DOMAIN segs : LET g == segs[k] IN g.exit \in {1, 2} /\ g.dest \in Nodes /\ g.flow \in Flows
+\* ... and belongs to the node it names EXCEPT right after a sub-flow returned (the deviation named at `nodereg`)
+SegmentNodeOwnsExit == \A k \in DOMAIN segs : segs[k].nflow = segs[k].flow
 
 \* C05
 StepBound == nsteps <= MaxSteps + 1
